@@ -160,8 +160,9 @@ fn frame_of(
 }
 
 /// Values of one window call for `n` input rows. `ev(i, e)` evaluates an expression on input row `i`;
-/// `ident[i]` identifies row `i` for the determinism analysis (rows with equal identity are interchangeable).
-pub(crate) fn compute(ctx: &Ctx<'_>, w: &WinCall, n: usize, ev: &dyn Fn(usize, &Expr) -> R<Value>, ident: &[Vec<Value>]) -> R<Vec<Value>> {
+/// `ident[i]` identifies row `i` for the determinism analysis (rows with equal identity are interchangeable
+/// unless `strict`: then any tie under an order-sensitive function is non-deterministic).
+pub(crate) fn compute(ctx: &Ctx<'_>, w: &WinCall, n: usize, ev: &dyn Fn(usize, &Expr) -> R<Value>, ident: &[Vec<Value>], strict: bool) -> R<Vec<Value>> {
     let mut out = vec![Value::Null; n];
     // partition
     let mut parts: Vec<(Vec<Value>, Vec<usize>)> = vec![];
@@ -218,7 +219,9 @@ pub(crate) fn compute(ctx: &Ctx<'_>, w: &WinCall, n: usize, ev: &dyn Fn(usize, &
         if order_sensitive {
             for &(a, b) in &group_bounds {
                 for j in a + 1..=b {
-                    if !row_group_eq(&ident[idx[j]], &ident[idx[a]]) {
+                    // with several window calls in one select even identical tied rows are distinguishable
+                    // through the other calls' outputs (`strict`)
+                    if strict || !row_group_eq(&ident[idx[j]], &ident[idx[a]]) {
                         return Err(RefError::Nondeterministic("order-sensitive window function over tied rows".into()));
                     }
                 }
